@@ -103,31 +103,38 @@ def bpf_primitives(chk, repo):
     # _lookup_elem: result buffer has the size asked for
     lk = repo.func(BPF + "_lookup_elem")
     chk.analysed(BPF + "_lookup_elem")
-    allocs = [n for n in walk_no_nested(lk) if isinstance(n, ast.Assign)
-              and match("bytearray($n)", n.value) is not None]
-    need(len(allocs) >= 1, "_lookup_elem: no bytearray allocation found")
+    # fold the statements up to the buffer's address being taken, for int
+    # sizes and for formats: the buffer must be exactly as large as asked
     p = param_names(lk)
     szp = p[-1]
-    for a in allocs:
-        n = match("bytearray($n)", a.value)["n"]
-        # guarded by isinstance(fmt, int): int -> itself, else calcsize
-        test = None
-        for par in parents(a):
-            if isinstance(par, ast.If):
-                test = par
-                break
-        in_int_branch = test is not None and match(
-            f"isinstance({szp}, int)", test.test) is not None and \
-            a in test.body
-        if in_int_branch:
-            ok = isinstance(n, ast.Name) and n.id == szp
-            want = szp
-        else:
-            ok = match(f"calcsize({szp})", n) is not None
-            want = f"calcsize({szp})"
-        chk.ob(rule, BPF + "_lookup_elem",
-               f"value buffer = {want}", ok, a,
-               f"allocates bytearray({unparse(n)})")
+    addr_st = [i for i, st in enumerate(lk.body) if any(
+        isinstance(c, ast.Call) and (dotted(c.func) or "").split(".")[-1]
+        in ("addressof", "addrof", "from_buffer") for c in ast.walk(st))]
+    need(addr_st, "_lookup_elem: the buffer's address is never taken")
+    prefix = lk.body[:addr_st[0]]
+    addr_expr = [c for c in ast.walk(lk.body[addr_st[0]]) if isinstance(
+        c, ast.Call) and (dotted(c.func) or "").endswith("from_buffer")]
+    need(addr_expr and isinstance(addr_expr[0].args[0], ast.Name),
+         "_lookup_elem: c_char.from_buffer(<buffer>) not found")
+    bufname = addr_expr[0].args[0].id
+    ev = Evaluator(repo, lk._module)
+    bad = []
+    for fmt in (1, 4, 8, 24, 4096, "B", "I", "Q", "q", "64I", "<HHBB", "x"):
+        env = {pp: None for pp in p}
+        env[szp] = fmt
+        try:
+            ev.run_block(prefix, env)
+            got = len(env[bufname])
+        except (Unknown, Raised, KeyError, TypeError) as e:
+            raise AnalysisError(f"_lookup_elem: cannot fold the allocation "
+                                f"for {fmt!r}: {e}")
+        want = fmt if isinstance(fmt, int) else calcsize(fmt)
+        if got != want:
+            bad.append(f"{fmt!r}: {got} bytes, asked for {want}")
+    chk.ob(rule, BPF + "_lookup_elem", "value buffer = the size asked for "
+           "(an int) or calcsize(format) (12 rows)", not bad, lk.body[
+               addr_st[0]], "; ".join(bad[:4]) or "the kernel copies "
+           "value_size bytes into this buffer")
     # the address handed to the kernel is that buffer's
     bcalls = [c for c in calls_in(lk) if resolve_callee(repo, c) == BPF + "bpf"]
     need(len(bcalls) == 1, "_lookup_elem: expected one bpf() call")
